@@ -408,6 +408,36 @@ def gen_plan(seed: int, cls: str) -> dict:
                 else:
                     params.append(tg.gen_type(ro, sym, [k for k in kinds if k not in ('tl', 'dl', 'gen')], C10_SCALARS,
                                               depth=1, max_depth=2, top=False))
+            if ro.random() < 0.25:
+                # the same leftover binding reached through different binding paths: G[list[T]][X] vs G[X];
+                # G[T, X][Y] vs G[X, T][Y]
+                X = ro.choice([['s', 'int'], ['s', 'str'], ['s', 'float']])
+                Y = ro.choice([['s', 'str'], ['s', 'int'], ['s', 'bool']])
+                seq = []
+                if ntv == 1:
+                    seq = [(['gen', g, ['list', ['tv', 'T']]], [X]), (['gen', g, X], None)]
+                else:
+                    seq = [(['gen', g, ['tv', 'T'], X] + [['s', 'int']] * (ntv - 2), [Y]),
+                           (['gen', g, X, ['tv', 'T']] + [['s', 'int']] * (ntv - 2), [Y])]
+                ro.shuffle(seq)
+                for (past, again) in seq:
+                    r1 = f'r{nroot}'
+                    nroot += 1
+                    roots[r1] = past
+                    fr1 = []
+                    for p_ in past[2:]:
+                        free_typevars(p_, fr1)
+                    if fr1:
+                        partials[r1] = fr1
+                    ops.append({'op': 'subscript', 'name': r1, 't': past, 'g': g, 'data': probe(past)})
+                    if again is not None and fr1:
+                        a2 = ['gen2', r1] + again
+                        r2 = f'r{nroot}'
+                        nroot += 1
+                        roots[r2] = resolve(a2, roots)
+                        ops.append({'op': 'subscript', 'name': r2, 't': a2, 'g': g,
+                                    'data': tg.enc(tg.sample_value(roots[r2], sym, ro, valid_p=1.0))})
+                continue
             tv_union = False
             if ro.random() < 0.3:
                 # a union of two bare type variables as a parameter; the reordered spelling follows, and both are
@@ -542,7 +572,7 @@ def gen_plan(seed: int, cls: str) -> dict:
         ndict += 2
         pos = ro.randrange(len(ops) + 1)
         ops[pos:pos] = extra
-    if roots and ro.random() < 0.3:
+    if roots and ro.random() < 0.45:
         ops.extend(_equal_values_scenario(ro, sym, roots, pick_custom))
     if ro.random() < 0.7:
         extra, nroot, ninst = _inferred_serialiser_scenario(ro, sym, roots, nroot, ninst)
